@@ -19,6 +19,7 @@ EXPLANATION = ("Index-domain typing over the whole package: every subscript, .ge
                "to each other or compared with a non-zero constant, and Optional periods are never tested by truthiness (period 0 is a "
                "valid value)."
                ' Added in round 3: nothing handed to a scheduler shares mutable state with the network (escape analysis shared with C05), JSON keeps station order (shared with C09), position in the EVSE mapping is the station position.')
+EXPLANATION += ' Added in rounds 4-5: station-order round trip (C09.R9), order provenance of local positional containers, the densification rules of C04 and the argument-binding rule of C05 (constraint description entry for entry) also run here.'
 NOT_DECIDED = ("permutation invariance of numeric outputs as such; that a third-party scheduler respects the affine-time discipline; "
                "tie-breaking among equal priority keys")
 
